@@ -65,10 +65,26 @@ func stickyEntries(p *Prog) []stickyEntry {
 			out = append(out, stickyEntry{fn, 1})
 		}
 	}
-	if fn := p.Func("", "getFunc"); fn != nil {
+	return out
+}
+
+type stickyPair struct {
+	fn  *ssa.Function
+	idx int
+}
+
+// auxiliaryPairs: helpers of the root package that take a frame/grouper and return one as first result
+// (getFunc, extracted helpers such as "drop the intermediates"): they are judged like the mandatory
+// entries but produce no obligation of their own.
+func auxiliaryPairs(p *Prog) []stickyPair {
+	var out []stickyPair
+	for _, fn := range p.FuncsIn("") {
+		if fn.Parent() != nil || fn.Signature.Results().Len() == 0 || !isFrameType(fn.Signature.Results().At(0).Type()) {
+			continue
+		}
 		for i, prm := range fn.Params {
 			if isFrameType(prm.Type()) {
-				out = append(out, stickyEntry{fn, i})
+				out = append(out, stickyPair{fn, i})
 			}
 		}
 	}
@@ -78,20 +94,59 @@ func stickyEntries(p *Prog) []stickyEntry {
 func runR20(c *Ctx) {
 	p := c.P
 	entries := stickyEntries(p)
-	inSet := map[*ssa.Function]int{}
+	mandatory := map[stickyPair]bool{}
+	passing := map[stickyPair]bool{}
 	for _, e := range entries {
-		inSet[e.fn] = e.frameIdx
+		mandatory[stickyPair{e.fn, e.frameIdx}] = true
+		passing[stickyPair{e.fn, e.frameIdx}] = true
+	}
+	for _, pr := range auxiliaryPairs(p) {
+		passing[pr] = true
 	}
 	res := p.resolver()
+	problemsOf := map[stickyPair][]string{}
+	statsOf := map[stickyPair]string{}
+	// greatest fixpoint over the pair set
+	for changed := true; changed; {
+		changed = false
+		for pr := range passing {
+			if _, ex := r20Exempt[fname(pr.fn)]; ex {
+				continue
+			}
+			probs, stat := stickyAnalyse(p, res, pr, passing)
+			problemsOf[pr], statsOf[pr] = probs, stat
+			if len(probs) > 0 {
+				delete(passing, pr)
+				changed = true
+			}
+		}
+	}
 	for _, e := range entries {
-		fn := e.fn
-		name := fname(fn)
+		pr := stickyPair{e.fn, e.frameIdx}
+		name := fname(e.fn)
 		key := name + "|under Err != nil"
 		if why, ok := r20Exempt[name]; ok {
-			c.okTrivial(key, p.pos(fn.Pos()), "frozen exception: "+why)
+			c.okTrivial(key, p.pos(e.fn.Pos()), "frozen exception: "+why)
 			continue
 		}
-		frame := fn.Params[e.frameIdx]
+		if passing[pr] {
+			c.ok(key, p.pos(e.fn.Pos()), statsOf[pr])
+		} else {
+			probs := problemsOf[pr]
+			if len(probs) > 3 {
+				probs = append(probs[:3], fmt.Sprintf("... and %d more", len(probs)-3))
+			}
+			c.bad(key, p.pos(e.fn.Pos()), "with an errored incoming frame: "+strings.Join(probs, "; "))
+		}
+	}
+}
+
+// stickyAnalyse explores fn assuming parameter idx is errored; calls of pairs in `passing` with an
+// errored frame yield errored results.
+func stickyAnalyse(p *Prog, res *callResolver, pr stickyPair, passing map[stickyPair]bool) ([]string, string) {
+	fn := pr.fn
+	{
+		frame := fn.Params[pr.idx]
 		// greatest fixpoint of "errored" frame-typed values
 		errored := map[ssa.Value]bool{}
 		eachInstr(fn, func(in ssa.Instruction) {
@@ -130,7 +185,6 @@ func runR20(c *Ctx) {
 							}
 						}
 					case *ssa.FieldAddr:
-						// composite literal / field assignment: errored if the Err field receives an error
 						st := deref(s.X.Type()).Underlying().(*types.Struct)
 						fnm := st.Field(s.Field).Name()
 						for _, r2 := range *s.Referrers() {
@@ -140,8 +194,6 @@ func runR20(c *Ctx) {
 									if !errValueNonNil(fs.Val, errored) {
 										whole = false
 									}
-								} else if fnm == "index" && n > 0 {
-									// assigning another field of an errored frame keeps it errored
 								}
 							}
 						}
@@ -151,21 +203,26 @@ func runR20(c *Ctx) {
 			case *ssa.Extract:
 				return t.Index == 0 && errored[t.Tuple] && isFrameType(t.Type())
 			case *ssa.Call:
-				if o := calleeObj(t); o != nil && o.Name() == "withErr" {
+				if o := calleeObj(t); o != nil && p.isErrSetter(o) {
 					return true
 				}
-				// call of an operation of the set with an errored frame
-				for _, callee := range res.callees(t) {
-					idx, ok := inSet[callee]
-					if !ok {
+				callees := res.callees(t)
+				for _, callee := range callees {
+					args := argsFor(t, callee)
+					if args == nil {
 						return false
 					}
-					args := argsFor(t, callee)
-					if args == nil || idx >= len(args) || !errored[args[idx]] {
+					okCallee := false
+					for i := range args {
+						if passing[stickyPair{callee, i}] && errored[args[i]] {
+							okCallee = true
+						}
+					}
+					if !okCallee {
 						return false
 					}
 				}
-				return len(res.callees(t)) > 0
+				return len(callees) > 0
 			}
 			return false
 		}
@@ -224,7 +281,6 @@ func runR20(c *Ctx) {
 							problems = append(problems, fmt.Sprintf("a user-supplied function (%s) is called at %s", how, p.instrPos(in)))
 						}
 					}
-					// operations of the set called with a frame that is not known to be errored are explored by their own obligation
 				case *ssa.Return:
 					for i, r := range t.Results {
 						rt := fn.Signature.Results().At(i).Type()
@@ -246,14 +302,7 @@ func runR20(c *Ctx) {
 				}
 			}
 		}
-		if len(problems) > 0 {
-			if len(problems) > 3 {
-				problems = append(problems[:3], fmt.Sprintf("... and %d more", len(problems)-3))
-			}
-			c.bad(key, p.pos(fn.Pos()), "with an errored incoming frame: "+strings.Join(problems, "; "))
-		} else {
-			c.ok(key, p.pos(fn.Pos()), fmt.Sprintf("%d of %d blocks feasible; no kernel, no callback, errored result", len(reach), len(fn.Blocks)))
-		}
+		return problems, fmt.Sprintf("%d of %d blocks feasible; no kernel, no callback, errored result", len(reach), len(fn.Blocks))
 	}
 }
 
